@@ -86,6 +86,9 @@ def project(prog, cfg):
                 files[k] = "import pytest\n" + files[k].replace("def test_", "@pytest.mark.xfail%s\ndef test_" % xf)
             else:
                 head, _, rest = files[k].partition("\n\n\n")
+                import re as _re
+
+                rest = _re.sub(r"^def (test_\w+)\(\):", r"def \1(self):", rest, flags=_re.M)
                 body = "\n".join(("    " + l if l else l) for l in rest.replace("def test_create():", "def test_create(self):").replace(
                     "def test_fix():", "def test_fix(self):").replace("def test_trim():", "def test_trim(self):").replace(
                     "def test_update():", "def test_update(self):").replace("def test_ext_create():", "def test_ext_create(self):").replace(
